@@ -53,6 +53,9 @@ type expGroup struct {
 type quirks struct {
 	NullRows  bool // a field filter keeps rows whose selected fields are all null
 	PrevLater bool // descending fill(previous) takes the value of the later bucket
+	// an aggregate with a field filter: a group / fill(none) bucket whose rows pass the
+	// filter but carry no value of the aggregated field is reported as a null row
+	PhantomNull bool
 }
 
 type expSeries struct {
@@ -410,10 +413,15 @@ func evaluate(q *querySpec, rows []mrow, schema map[string]byte, desc bool, qk q
 				ps = append(ps, pt{r.t, v})
 			}
 		}
-		if len(ps) == 0 {
+		if len(ps) == 0 && !(qk.PhantomNull && len(g.rows) > 0) {
 			continue
 		}
 		es := expSeries{Tags: g.tags, Key: k, Cols: []string{"time", q.Func}, Kinds: []byte{'i', rk}, InPoints: len(ps)}
+		if q.Interval == 0 && len(ps) == 0 {
+			es.Groups = []expGroup{{Alts: [][]model.Value{{timeVal(loT), null}}, Take: 1, Empty: true}}
+			exp.Series = append(exp.Series, es)
+			continue
+		}
 		if q.Interval == 0 {
 			var alts [][]model.Value
 			for _, a := range agg(ps) {
@@ -448,6 +456,12 @@ func evaluate(q *querySpec, rows []mrow, schema map[string]byte, desc bool, qk q
 			b := floorDiv(p.t, d)
 			byBucket[b] = append(byBucket[b], p)
 		}
+		passing := map[int64]bool{}
+		if qk.PhantomNull {
+			for _, r := range g.rows {
+				passing[floorDiv(r.t, d)] = true
+			}
+		}
 		var prev [][]model.Value // alternatives of the previous bucket's value (fill previous)
 		step := int64(1)
 		bFrom, bTo := b0, b1
@@ -475,6 +489,9 @@ func evaluate(q *querySpec, rows []mrow, schema map[string]byte, desc bool, qk q
 			}
 			switch q.Fill {
 			case "none":
+				if passing[b] {
+					es.Groups = append(es.Groups, expGroup{Alts: [][]model.Value{{bt, null}}, Take: 1, Empty: true})
+				}
 				continue
 			case "", "null":
 				v := null
